@@ -122,7 +122,7 @@ const char *ev_name(int k) {
   static const char *n[] = {"?", "lock_req", "lock_acq", "unlock", "cv_wait", "cv_wake", "notify_one", "notify_all",
                             "thread_create", "thread_start", "thread_exit", "join_req", "join_done",
                             "look", "relook", "load_begin", "load_end", "export_begin", "export_end", "group",
-                            "spy_enter", "spy_exit", "spurious", "io_read", "io_write", "io_seek", "trylock", "timeout", "atomic", "mem", "yield"};
+                            "spy_enter", "spy_exit", "spurious", "io_read", "io_write", "io_seek", "trylock", "timeout", "atomic", "mem", "yield", "cv_enter"};
   return (k > 0 && k < EV_KIND_MAX) ? n[k] : "?";
 }
 const char *strategy_name(int s) {
@@ -939,6 +939,12 @@ static void cv_block(sim_condition_variable *cv, std::unique_lock<sim_mutex> &lk
   if (!S.active) { fprintf(stderr, "simsched: condition_variable::wait outside a session\n"); abort(); }
   ThreadRec *me = S.cur;
   sim_mutex *m = lk.mutex();
+  // A real thread can be preempted between its last look at the predicate and the moment the wait has registered it: the
+  // mutex is still held, so a notifier that takes the mutex cannot slip in - one that does not (state kept in an atomic,
+  // notify without the lock) can, and its notification is then lost.
+  record(EV_CV_ENTER, condvar_id(cv), timed);
+  close_interval(me);
+  yield_point();
   record(EV_CV_WAIT, condvar_id(cv), timed);
   close_interval(me);
   release_mutex(m, me);
